@@ -2,14 +2,48 @@ import DarkluaModel.Shared.VisitorSound.Exact
 /-!
 # Stage 2: the congruence closure of exact steps
 
-`R a b` — the syntax `b` is obtained from `a` by replacing, hereditarily and at any depth
-(also inside function bodies), nodes by exactly equivalent nodes (`EqE`/`EqT`/`EqS`/`EqL`/`EqB`).
+`R md a b` — the syntax `b` is obtained from `a` by replacing, hereditarily and at any depth
+(also inside function bodies), nodes by equivalent nodes. The steps are `LeE md` … `LeB md`:
+with `md = false` exact equivalence (`EqE` …), with `md = true` "the original node times out
+(budget exhausted) or the new node behaves exactly like it" — the right notion for rules that
+delete loops (`while false do … end` times out at budget 0, its deletion does not).
 All syntactic categories are put into one sum type `Node`, so that `R` is a single (non-mutual)
 inductive predicate and plain `induction` works. Types, attributes and generics are unconstrained
 (no semantics); parameter / loop variable names and variadicity must agree.
 -/
 namespace DarkluaModel
 open Sem
+
+namespace Sem
+/-- step relation: (`md = true` and the original times out) or exact equality -/
+def LeE (md : Bool) (e e' : Expr) : Prop :=
+  ∀ (N : NumOps) (call : CallFn N) (ρ : ExtOracle N) (k : Nat) (env : Env N) (σ : State N),
+    (md = true ∧ evalE call ρ k env e σ = .timeout) ∨ evalE call ρ k env e' σ = evalE call ρ k env e σ
+def LeT (md : Bool) (e e' : Expr) : Prop :=
+  ∀ (N : NumOps) (call : CallFn N) (ρ : ExtOracle N) (k : Nat) (env : Env N) (σ : State N),
+    (md = true ∧ evalTarget call ρ k env e σ = .timeout) ∨
+      evalTarget call ρ k env e' σ = evalTarget call ρ k env e σ
+def LeS (md : Bool) (e e' : Stmt) : Prop :=
+  ∀ (N : NumOps) (call : CallFn N) (ρ : ExtOracle N) (k : Nat) (env : Env N) (σ : State N),
+    (md = true ∧ execS call ρ k env e σ = .timeout) ∨ execS call ρ k env e' σ = execS call ρ k env e σ
+def LeL (md : Bool) (e e' : Last) : Prop :=
+  ∀ (N : NumOps) (call : CallFn N) (ρ : ExtOracle N) (k : Nat) (env : Env N) (σ : State N),
+    (md = true ∧ execLast call ρ k env e σ = .timeout) ∨ execLast call ρ k env e' σ = execLast call ρ k env e σ
+def LeB (md : Bool) (e e' : Block) : Prop :=
+  ∀ (N : NumOps) (call : CallFn N) (ρ : ExtOracle N) (k : Nat) (env : Env N) (σ : State N),
+    (md = true ∧ execB call ρ k env e σ = .timeout) ∨ execB call ρ k env e' σ = execB call ρ k env e σ
+
+theorem EqE.le {md e e'} (h : EqE e e') : LeE md e e' := fun N call ρ k env σ => .inr (h N call ρ k env σ)
+theorem EqT.le {md e e'} (h : EqT e e') : LeT md e e' := fun N call ρ k env σ => .inr (h N call ρ k env σ)
+theorem EqS.le {md e e'} (h : EqS e e') : LeS md e e' := fun N call ρ k env σ => .inr (h N call ρ k env σ)
+theorem EqL.le {md e e'} (h : EqL e e') : LeL md e e' := fun N call ρ k env σ => .inr (h N call ρ k env σ)
+theorem EqB.le {md e e'} (h : EqB e e') : LeB md e e' := fun N call ρ k env σ => .inr (h N call ρ k env σ)
+theorem LeE.refl {md} (e) : LeE md e e := fun _ _ _ _ _ _ => .inr rfl
+theorem LeT.refl {md} (e) : LeT md e e := fun _ _ _ _ _ _ => .inr rfl
+theorem LeS.refl {md} (e) : LeS md e e := fun _ _ _ _ _ _ => .inr rfl
+theorem LeL.refl {md} (e) : LeL md e e := fun _ _ _ _ _ _ => .inr rfl
+theorem LeB.refl {md} (e) : LeB md e e := fun _ _ _ _ _ _ => .inr rfl
+end Sem
 
 inductive Node where
   | e (x : Expr)
@@ -30,99 +64,100 @@ def Expr.isLeaf : Expr → Bool
   | .nil | .true | .false | .vararg | .num _ | .str _ | .var _ => Bool.true
   | _ => Bool.false
 
-inductive R : Node → Node → Prop
+inductive R (md : Bool) : Node → Node → Prop
   -- exact steps and transitivity, per category
-  | stepE {a m b} : EqE a m → R (.e m) (.e b) → R (.e a) (.e b)
-  | stepT {a m b} : EqT a m → R (.t m) (.t b) → R (.t a) (.t b)
-  | stepS {a m b} : EqS a m → R (.s m) (.s b) → R (.s a) (.s b)
-  | stepL {a m b} : EqL a m → R (.l m) (.l b) → R (.l a) (.l b)
-  | stepB {a m b} : EqB a m → R (.b m) (.b b) → R (.b a) (.b b)
-  | transE {a b c} : R (.e a) (.e b) → R (.e b) (.e c) → R (.e a) (.e c)
-  | transT {a b c} : R (.t a) (.t b) → R (.t b) (.t c) → R (.t a) (.t c)
-  | transS {a b c} : R (.s a) (.s b) → R (.s b) (.s c) → R (.s a) (.s c)
-  | transL {a b c} : R (.l a) (.l b) → R (.l b) (.l c) → R (.l a) (.l c)
-  | transB {a b c} : R (.b a) (.b b) → R (.b b) (.b c) → R (.b a) (.b c)
+  | stepE {a m b} : LeE md a m → R md (.e m) (.e b) → R md (.e a) (.e b)
+  | stepT {a m b} : LeT md a m → R md (.t m) (.t b) → R md (.t a) (.t b)
+  | stepS {a m b} : LeS md a m → R md (.s m) (.s b) → R md (.s a) (.s b)
+  | stepL {a m b} : LeL md a m → R md (.l m) (.l b) → R md (.l a) (.l b)
+  | stepB {a m b} : LeB md a m → R md (.b m) (.b b) → R md (.b a) (.b b)
+  | transE {a b c} : R md (.e a) (.e b) → R md (.e b) (.e c) → R md (.e a) (.e c)
+  | transT {a b c} : R md (.t a) (.t b) → R md (.t b) (.t c) → R md (.t a) (.t c)
+  | transS {a b c} : R md (.s a) (.s b) → R md (.s b) (.s c) → R md (.s a) (.s c)
+  | transL {a b c} : R md (.l a) (.l b) → R md (.l b) (.l c) → R md (.l a) (.l c)
+  | transB {a b c} : R md (.b a) (.b b) → R md (.b b) (.b c) → R md (.b a) (.b c)
   -- expressions
-  | leaf {x} : x.isLeaf = true → R (.e x) (.e x)
-  | paren {x x'} : R (.e x) (.e x') → R (.e (.paren x)) (.e (.paren x'))
-  | un {op x x'} : R (.e x) (.e x') → R (.e (.un op x)) (.e (.un op x'))
-  | bin {op l l' r r'} : R (.e l) (.e l') → R (.e r) (.e r') → R (.e (.bin op l r)) (.e (.bin op l' r'))
-  | call {f f' m k args args'} : R (.e f) (.e f') → R (.es args) (.es args') →
-      R (.e (.call f m k args)) (.e (.call f' m k args'))
-  | field {x x' n} : R (.e x) (.e x') → R (.e (.field x n)) (.e (.field x' n))
-  | index {x x' k k'} : R (.e x) (.e x') → R (.e k) (.e k') → R (.e (.index x k)) (.e (.index x' k'))
-  | fn {f f'} : R (.f f) (.f f') → R (.e (.fn f)) (.e (.fn f'))
-  | table {es es'} : R (.entries es) (.entries es') → R (.e (.table es)) (.e (.table es'))
-  | ifx {c c' t t' el el' e e'} : R (.e c) (.e c') → R (.e t) (.e t') → R (.elifs el) (.elifs el') →
-      R (.e e) (.e e') → R (.e (.ifx c t el e)) (.e (.ifx c' t' el' e'))
-  | interp {segs segs'} : R (.segs segs) (.segs segs') → R (.e (.interp segs)) (.e (.interp segs'))
-  | cast {x x' ty ty'} : R (.e x) (.e x') → R (.e (.cast x ty)) (.e (.cast x' ty'))
-  | inst {x x' tys tys'} : R (.e x) (.e x') → R (.e (.inst x tys)) (.e (.inst x' tys'))
+  | leaf {x} : x.isLeaf = true → R md (.e x) (.e x)
+  | paren {x x'} : R md (.e x) (.e x') → R md (.e (.paren x)) (.e (.paren x'))
+  | un {op x x'} : R md (.e x) (.e x') → R md (.e (.un op x)) (.e (.un op x'))
+  | bin {op l l' r r'} : R md (.e l) (.e l') → R md (.e r) (.e r') → R md (.e (.bin op l r)) (.e (.bin op l' r'))
+  | call {f f' m k args args'} : R md (.e f) (.e f') → R md (.es args) (.es args') →
+      R md (.e (.call f m k args)) (.e (.call f' m k args'))
+  | field {x x' n} : R md (.e x) (.e x') → R md (.e (.field x n)) (.e (.field x' n))
+  | index {x x' k k'} : R md (.e x) (.e x') → R md (.e k) (.e k') → R md (.e (.index x k)) (.e (.index x' k'))
+  | fn {f f'} : R md (.f f) (.f f') → R md (.e (.fn f)) (.e (.fn f'))
+  | table {es es'} : R md (.entries es) (.entries es') → R md (.e (.table es)) (.e (.table es'))
+  | ifx {c c' t t' el el' e e'} : R md (.e c) (.e c') → R md (.e t) (.e t') → R md (.elifs el) (.elifs el') →
+      R md (.e e) (.e e') → R md (.e (.ifx c t el e)) (.e (.ifx c' t' el' e'))
+  | interp {segs segs'} : R md (.segs segs) (.segs segs') → R md (.e (.interp segs)) (.e (.interp segs'))
+  | cast {x x' ty ty'} : R md (.e x) (.e x') → R md (.e (.cast x ty)) (.e (.cast x' ty'))
+  | inst {x x' tys tys'} : R md (.e x) (.e x') → R md (.e (.inst x tys)) (.e (.inst x' tys'))
   -- lists of expressions
-  | esNil : R (.es []) (.es [])
-  | esCons {x x' xs xs'} : R (.e x) (.e x') → R (.es xs) (.es xs') → R (.es (x :: xs)) (.es (x' :: xs'))
-  | tsNil : R (.ts []) (.ts [])
-  | tsCons {x x' xs xs'} : R (.t x) (.t x') → R (.ts xs) (.ts xs') → R (.ts (x :: xs)) (.ts (x' :: xs'))
-  | elifsNil : R (.elifs []) (.elifs [])
-  | elifsCons {c c' t t' xs xs'} : R (.e c) (.e c') → R (.e t) (.e t') → R (.elifs xs) (.elifs xs') →
-      R (.elifs ((c, t) :: xs)) (.elifs ((c', t') :: xs'))
-  | entriesNil : R (.entries []) (.entries [])
-  | entriesPos {v v' xs xs'} : R (.e v) (.e v') → R (.entries xs) (.entries xs') →
-      R (.entries (.pos v :: xs)) (.entries (.pos v' :: xs'))
-  | entriesNamed {k v v' xs xs'} : R (.e v) (.e v') → R (.entries xs) (.entries xs') →
-      R (.entries (.named k v :: xs)) (.entries (.named k v' :: xs'))
-  | entriesKeyed {k k' v v' xs xs'} : R (.e k) (.e k') → R (.e v) (.e v') → R (.entries xs) (.entries xs') →
-      R (.entries (.keyed k v :: xs)) (.entries (.keyed k' v' :: xs'))
-  | segsNil : R (.segs []) (.segs [])
-  | segsS {b xs xs'} : R (.segs xs) (.segs xs') → R (.segs (.s b :: xs)) (.segs (.s b :: xs'))
-  | segsV {x x' xs xs'} : R (.e x) (.e x') → R (.segs xs) (.segs xs') → R (.segs (.v x :: xs)) (.segs (.v x' :: xs'))
+  | esNil : R md (.es []) (.es [])
+  | esCons {x x' xs xs'} : R md (.e x) (.e x') → R md (.es xs) (.es xs') → R md (.es (x :: xs)) (.es (x' :: xs'))
+  | tsNil : R md (.ts []) (.ts [])
+  | tsCons {x x' xs xs'} : R md (.t x) (.t x') → R md (.ts xs) (.ts xs') → R md (.ts (x :: xs)) (.ts (x' :: xs'))
+  | elifsNil : R md (.elifs []) (.elifs [])
+  | elifsCons {c c' t t' xs xs'} : R md (.e c) (.e c') → R md (.e t) (.e t') → R md (.elifs xs) (.elifs xs') →
+      R md (.elifs ((c, t) :: xs)) (.elifs ((c', t') :: xs'))
+  | entriesNil : R md (.entries []) (.entries [])
+  | entriesPos {v v' xs xs'} : R md (.e v) (.e v') → R md (.entries xs) (.entries xs') →
+      R md (.entries (.pos v :: xs)) (.entries (.pos v' :: xs'))
+  | entriesNamed {k v v' xs xs'} : R md (.e v) (.e v') → R md (.entries xs) (.entries xs') →
+      R md (.entries (.named k v :: xs)) (.entries (.named k v' :: xs'))
+  | entriesKeyed {k k' v v' xs xs'} : R md (.e k) (.e k') → R md (.e v) (.e v') → R md (.entries xs) (.entries xs') →
+      R md (.entries (.keyed k v :: xs)) (.entries (.keyed k' v' :: xs'))
+  | segsNil : R md (.segs []) (.segs [])
+  | segsS {b xs xs'} : R md (.segs xs) (.segs xs') → R md (.segs (.s b :: xs)) (.segs (.s b :: xs'))
+  | segsV {x x' xs xs'} : R md (.e x) (.e x') → R md (.segs xs) (.segs xs') → R md (.segs (.v x :: xs)) (.segs (.v x' :: xs'))
   -- targets
-  | tVar {a} : R (.t (.var a)) (.t (.var a))
-  | tField {x x' n} : R (.e x) (.e x') → R (.t (.field x n)) (.t (.field x' n))
-  | tIndex {x x' k k'} : R (.e x) (.e x') → R (.e k) (.e k') → R (.t (.index x k)) (.t (.index x' k'))
-  | tNonLv {x x'} : x.isLv = false → x'.isLv = false → R (.t x) (.t x')
+  | tVar {a} : R md (.t (.var a)) (.t (.var a))
+  | tField {x x' n} : R md (.e x) (.e x') → R md (.t (.field x n)) (.t (.field x' n))
+  | tIndex {x x' k k'} : R md (.e x) (.e x') → R md (.e k) (.e k') → R md (.t (.index x k)) (.t (.index x' k'))
+  | tNonLv {x x'} : x.isLv = false → x'.isLv = false → R md (.t x) (.t x')
   -- function bodies
   | fnBody {ps ps' v vt vt' r r' g g' a a' b b'} : ps.map TName.name = ps'.map TName.name →
-      R (.b b) (.b b') → R (.f (.mk ps v vt r g a b)) (.f (.mk ps' v vt' r' g' a' b'))
+      R md (.b b) (.b b') → R md (.f (.mk ps v vt r g a b)) (.f (.mk ps' v vt' r' g' a' b'))
   -- statements
-  | assign {ts ts' vs vs'} : R (.ts ts) (.ts ts') → R (.es vs) (.es vs') →
-      R (.s (.assign ts vs)) (.s (.assign ts' vs'))
-  | cassign {op t t' v v'} : R (.t t) (.t t') → R (.e v) (.e v') → R (.s (.cassign op t v)) (.s (.cassign op t' v'))
-  | callStmt {c c'} : R (.e c) (.e c') → R (.s (.callStmt c)) (.s (.callStmt c'))
-  | doBlock {b b'} : R (.b b) (.b b') → R (.s (.doBlock b)) (.s (.doBlock b'))
-  | function {name m f f'} : R (.f f) (.f f') → R (.s (.function name m f)) (.s (.function name m f'))
-  | gfor {ns ns' vs vs' b b'} : ns.map TName.name = ns'.map TName.name → R (.es vs) (.es vs') →
-      R (.b b) (.b b') → R (.s (.gfor ns vs b)) (.s (.gfor ns' vs' b'))
-  | nforNone {n n' a a' b b' body body'} : n.name = n'.name → R (.e a) (.e a') → R (.e b) (.e b') →
-      R (.b body) (.b body') → R (.s (.nfor n a b none body)) (.s (.nfor n' a' b' none body'))
-  | nforSome {n n' a a' b b' st st' body body'} : n.name = n'.name → R (.e a) (.e a') → R (.e b) (.e b') →
-      R (.e st) (.e st') → R (.b body) (.b body') →
-      R (.s (.nfor n a b (some st) body)) (.s (.nfor n' a' b' (some st') body'))
-  | ifsNone {brs brs'} : R (.branches brs) (.branches brs') → R (.s (.ifs brs none)) (.s (.ifs brs' none))
-  | ifsSome {brs brs' b b'} : R (.branches brs) (.branches brs') → R (.b b) (.b b') →
-      R (.s (.ifs brs (some b))) (.s (.ifs brs' (some b')))
-  | localAssign {kind ns ns' vs vs'} : ns.map TName.name = ns'.map TName.name → R (.es vs) (.es vs') →
-      R (.s (.localAssign kind ns vs)) (.s (.localAssign kind ns' vs'))
-  | localFn {kind name f f'} : R (.f f) (.f f') → R (.s (.localFn kind name f)) (.s (.localFn kind name f'))
-  | repeat_ {b b' c c'} : R (.b b) (.b b') → R (.e c) (.e c') → R (.s (.repeat_ b c)) (.s (.repeat_ b' c'))
-  | while_ {b b' c c'} : R (.e c) (.e c') → R (.b b) (.b b') → R (.s (.while_ c b)) (.s (.while_ c' b'))
-  | typeDecl {ex name ty ty'} : R (.s (.typeDecl ex name ty)) (.s (.typeDecl ex name ty'))
-  | typeFn {ex name f f'} : R (.s (.typeFn ex name f)) (.s (.typeFn ex name f'))
+  | assign {ts ts' vs vs'} : R md (.ts ts) (.ts ts') → R md (.es vs) (.es vs') →
+      R md (.s (.assign ts vs)) (.s (.assign ts' vs'))
+  | cassign {op t t' v v'} : R md (.t t) (.t t') → R md (.e v) (.e v') → R md (.s (.cassign op t v)) (.s (.cassign op t' v'))
+  | callStmt {c c'} : R md (.e c) (.e c') → R md (.s (.callStmt c)) (.s (.callStmt c'))
+  | doBlock {b b'} : R md (.b b) (.b b') → R md (.s (.doBlock b)) (.s (.doBlock b'))
+  | function {name m f f'} : R md (.f f) (.f f') → R md (.s (.function name m f)) (.s (.function name m f'))
+  | gfor {ns ns' vs vs' b b'} : ns.map TName.name = ns'.map TName.name → R md (.es vs) (.es vs') →
+      R md (.b b) (.b b') → R md (.s (.gfor ns vs b)) (.s (.gfor ns' vs' b'))
+  | nforNone {n n' a a' b b' body body'} : n.name = n'.name → R md (.e a) (.e a') → R md (.e b) (.e b') →
+      R md (.b body) (.b body') → R md (.s (.nfor n a b none body)) (.s (.nfor n' a' b' none body'))
+  | nforSome {n n' a a' b b' st st' body body'} : n.name = n'.name → R md (.e a) (.e a') → R md (.e b) (.e b') →
+      R md (.e st) (.e st') → R md (.b body) (.b body') →
+      R md (.s (.nfor n a b (some st) body)) (.s (.nfor n' a' b' (some st') body'))
+  | ifsNone {brs brs'} : R md (.branches brs) (.branches brs') → R md (.s (.ifs brs none)) (.s (.ifs brs' none))
+  | ifsSome {brs brs' b b'} : R md (.branches brs) (.branches brs') → R md (.b b) (.b b') →
+      R md (.s (.ifs brs (some b))) (.s (.ifs brs' (some b')))
+  | localAssign {kind ns ns' vs vs'} : ns.map TName.name = ns'.map TName.name → R md (.es vs) (.es vs') →
+      R md (.s (.localAssign kind ns vs)) (.s (.localAssign kind ns' vs'))
+  | localFn {kind name f f'} : R md (.f f) (.f f') → R md (.s (.localFn kind name f)) (.s (.localFn kind name f'))
+  | repeat_ {b b' c c'} : R md (.b b) (.b b') → R md (.e c) (.e c') → R md (.s (.repeat_ b c)) (.s (.repeat_ b' c'))
+  | while_ {b b' c c'} : R md (.e c) (.e c') → R md (.b b) (.b b') → R md (.s (.while_ c b)) (.s (.while_ c' b'))
+  | typeDecl {ex name ty ty'} : R md (.s (.typeDecl ex name ty)) (.s (.typeDecl ex name ty'))
+  | typeFn {ex name f f'} : R md (.s (.typeFn ex name f)) (.s (.typeFn ex name f'))
   -- statement lists, branches, last statements, blocks
-  | ssNil : R (.ss []) (.ss [])
-  | ssCons {x x' xs xs'} : R (.s x) (.s x') → R (.ss xs) (.ss xs') → R (.ss (x :: xs)) (.ss (x' :: xs'))
-  | branchesNil : R (.branches []) (.branches [])
-  | branchesCons {c c' b b' xs xs'} : R (.e c) (.e c') → R (.b b) (.b b') → R (.branches xs) (.branches xs') →
-      R (.branches ((c, b) :: xs)) (.branches ((c', b') :: xs'))
-  | ret {es es'} : R (.es es) (.es es') → R (.l (.ret es)) (.l (.ret es'))
-  | brk : R (.l .brk) (.l .brk)
-  | cont : R (.l .cont) (.l .cont)
-  | blockNone {ss ss'} : R (.ss ss) (.ss ss') → R (.b (.mk ss none)) (.b (.mk ss' none))
-  | blockSome {ss ss' l l'} : R (.ss ss) (.ss ss') → R (.l l) (.l l') → R (.b (.mk ss (some l))) (.b (.mk ss' (some l')))
+  | ssNil : R md (.ss []) (.ss [])
+  | ssCons {x x' xs xs'} : R md (.s x) (.s x') → R md (.ss xs) (.ss xs') → R md (.ss (x :: xs)) (.ss (x' :: xs'))
+  | branchesNil : R md (.branches []) (.branches [])
+  | branchesCons {c c' b b' xs xs'} : R md (.e c) (.e c') → R md (.b b) (.b b') → R md (.branches xs) (.branches xs') →
+      R md (.branches ((c, b) :: xs)) (.branches ((c', b') :: xs'))
+  | ret {es es'} : R md (.es es) (.es es') → R md (.l (.ret es)) (.l (.ret es'))
+  | brk : R md (.l .brk) (.l .brk)
+  | cont : R md (.l .cont) (.l .cont)
+  | blockNone {ss ss'} : R md (.ss ss) (.ss ss') → R md (.b (.mk ss none)) (.b (.mk ss' none))
+  | blockSome {ss ss' l l'} : R md (.ss ss) (.ss ss') → R md (.l l) (.l l') → R md (.b (.mk ss (some l))) (.b (.mk ss' (some l')))
 
 /-! ### reflexivity (structural recursion over the syntax) -/
+variable {md : Bool}
 mutual
-  theorem R.reflE : ∀ e : Expr, R (.e e) (.e e)
+  theorem R.reflE : ∀ e : Expr, R md (.e e) (.e e)
     | .nil => .leaf rfl | .true => .leaf rfl | .false => .leaf rfl | .vararg => .leaf rfl
     | .num _ => .leaf rfl | .str _ => .leaf rfl | .var _ => .leaf rfl
     | .paren e => .paren (R.reflE e)
@@ -137,24 +172,24 @@ mutual
     | .interp segs => .interp (R.reflSegs segs)
     | .cast e _ => .cast (R.reflE e)
     | .inst e _ => .inst (R.reflE e)
-  theorem R.reflEs : ∀ es : List Expr, R (.es es) (.es es)
+  theorem R.reflEs : ∀ es : List Expr, R md (.es es) (.es es)
     | [] => .esNil
     | e :: es => .esCons (R.reflE e) (R.reflEs es)
-  theorem R.reflElifs : ∀ es : List (Expr × Expr), R (.elifs es) (.elifs es)
+  theorem R.reflElifs : ∀ es : List (Expr × Expr), R md (.elifs es) (.elifs es)
     | [] => .elifsNil
     | (c, t) :: es => .elifsCons (R.reflE c) (R.reflE t) (R.reflElifs es)
-  theorem R.reflEntries : ∀ es : List Entry, R (.entries es) (.entries es)
+  theorem R.reflEntries : ∀ es : List Entry, R md (.entries es) (.entries es)
     | [] => .entriesNil
     | .pos v :: es => .entriesPos (R.reflE v) (R.reflEntries es)
     | .named _ v :: es => .entriesNamed (R.reflE v) (R.reflEntries es)
     | .keyed k v :: es => .entriesKeyed (R.reflE k) (R.reflE v) (R.reflEntries es)
-  theorem R.reflSegs : ∀ es : List Seg, R (.segs es) (.segs es)
+  theorem R.reflSegs : ∀ es : List Seg, R md (.segs es) (.segs es)
     | [] => .segsNil
     | .s _ :: es => .segsS (R.reflSegs es)
     | .v e :: es => .segsV (R.reflE e) (R.reflSegs es)
-  theorem R.reflF : ∀ f : FnBody, R (.f f) (.f f)
+  theorem R.reflF : ∀ f : FnBody, R md (.f f) (.f f)
     | .mk _ _ _ _ _ _ b => .fnBody rfl (R.reflB b)
-  theorem R.reflS : ∀ s : Stmt, R (.s s) (.s s)
+  theorem R.reflS : ∀ s : Stmt, R md (.s s) (.s s)
     | .assign ts vs => .assign (R.reflTs ts) (R.reflEs vs)
     | .cassign _ t v => .cassign (R.reflT t) (R.reflE v)
     | .callStmt c => .callStmt (R.reflE c)
@@ -171,7 +206,7 @@ mutual
     | .while_ c b => .while_ (R.reflE c) (R.reflB b)
     | .typeDecl _ _ _ => .typeDecl
     | .typeFn _ _ _ => .typeFn
-  theorem R.reflT : ∀ e : Expr, R (.t e) (.t e)
+  theorem R.reflT : ∀ e : Expr, R md (.t e) (.t e)
     | .var _ => .tVar
     | .field x _ => .tField (R.reflE x)
     | .index x k => .tIndex (R.reflE x) (R.reflE k)
@@ -181,20 +216,20 @@ mutual
     | .call _ _ _ _ => .tNonLv rfl rfl | .fn _ => .tNonLv rfl rfl | .table _ => .tNonLv rfl rfl
     | .ifx _ _ _ _ => .tNonLv rfl rfl | .interp _ => .tNonLv rfl rfl | .cast _ _ => .tNonLv rfl rfl
     | .inst _ _ => .tNonLv rfl rfl
-  theorem R.reflTs : ∀ es : List Expr, R (.ts es) (.ts es)
+  theorem R.reflTs : ∀ es : List Expr, R md (.ts es) (.ts es)
     | [] => .tsNil
     | e :: es => .tsCons (R.reflT e) (R.reflTs es)
-  theorem R.reflBranches : ∀ es : List (Expr × Block), R (.branches es) (.branches es)
+  theorem R.reflBranches : ∀ es : List (Expr × Block), R md (.branches es) (.branches es)
     | [] => .branchesNil
     | (c, b) :: es => .branchesCons (R.reflE c) (R.reflB b) (R.reflBranches es)
-  theorem R.reflSs : ∀ ss : List Stmt, R (.ss ss) (.ss ss)
+  theorem R.reflSs : ∀ ss : List Stmt, R md (.ss ss) (.ss ss)
     | [] => .ssNil
     | s :: ss => .ssCons (R.reflS s) (R.reflSs ss)
-  theorem R.reflL : ∀ l : Last, R (.l l) (.l l)
+  theorem R.reflL : ∀ l : Last, R md (.l l) (.l l)
     | .ret es => .ret (R.reflEs es)
     | .brk => .brk
     | .cont => .cont
-  theorem R.reflB : ∀ b : Block, R (.b b) (.b b)
+  theorem R.reflB : ∀ b : Block, R md (.b b) (.b b)
     | .mk ss none => .blockNone (R.reflSs ss)
     | .mk ss (some l) => .blockSome (R.reflSs ss) (R.reflL l)
 end
